@@ -133,6 +133,37 @@ fn main() {
         Some("session") => session::child_main(),
         Some("drive") => cmd_drive(&args[1..]),
         Some("replay") => cmd_replay(&args[1..]),
+        Some("miri-session") => {
+            // layer A2: a small session run entirely inside Miri, which owns entropy, addresses and
+            // the thread schedule (preemption inside expansions) under -Zmiri-seed. No files, no stdin.
+            let seed: u64 = arg(&args, "--seed").map(|s| s.parse().unwrap()).unwrap_or(1);
+            let n: usize = arg(&args, "--items").map(|s| s.parse().unwrap()).unwrap_or(3);
+            let mut r = rng::Rng::new(seed, 0xA2);
+            let mut keys = Vec::new();
+            for i in 0..n {
+                // the hash-ordered families first
+                keys.push(workload::family(&mut r, [0usize, 1, 2, 3, 4, 5][i % 6]));
+            }
+            let fault = keys.len();
+            keys.push(workload::fault_keys()[0].clone());
+            let mut requests = Vec::new();
+            for k in 0..n {
+                requests.push(session::Request { w: 0, k, mode: session::Mode::Catch });
+                requests.push(session::Request { w: 1, k, mode: session::Mode::Catch });
+            }
+            requests.insert(1, session::Request { w: 0, k: fault, mode: session::Mode::Catch });
+            requests.insert(3, session::Request { w: 1, k: fault, mode: session::Mode::Kill });
+            // after the kill, worker 1 is a fresh thread: ask again
+            for k in 0..n {
+                requests.push(session::Request { w: 1, k, mode: session::Mode::Catch });
+            }
+            let sched = session::Schedule { keys: keys.clone(), workers: 2, requests, prealloc: vec![], stack_pad: 0, worker_stack_kb: 4096, dump_text: false };
+            for o in session::run_schedule(sched) {
+                let k = &keys[o.k];
+                println!("OBS {:016x} {} {} w={} gen={}", rng::fnv(format!("{}|{}", k.derive, k.item).as_bytes()), o.class, o.digest, o.w, o.gen);
+            }
+            0
+        }
         Some("emit-keys") => {
             // key table for the real-rustc and Miri layers: families (seeded), faults, harvested
             let seed: u64 = arg(&args, "--seed").map(|s| s.parse().unwrap()).unwrap_or(1);
